@@ -1,6 +1,7 @@
 SPECIFICATION GSpec
 CONSTANTS
   Many = 8
+  W0Configs <- GenQuickW0
   W1Configs <- GenQuickW1
   W2Configs <- GenQuickW2
 INVARIANTS Emit TableOK
